@@ -118,7 +118,7 @@ def _gen_ops(rng, keys, n, tag):
         elif r < 0.92:
             ops.append(['dict'])
         elif r < 0.94:
-            ops.append(['keys'])
+            ops.append(['keys'] if rng.random() < 0.7 else ['iter_hold'])
         elif r < 0.96:
             q = rng.random()
             if q < 0.45:
